@@ -168,7 +168,7 @@ class Tables:
         """the class a user puts under this member: what the MemberSpec (info(), add()) declares; falls back to the
         class the builder instantiates when the MemberSpec names no binding class"""
         t = self.mspec_type(c, member)
-        return t if t in self.C else builder_cls
+        return t if isinstance(t, str) and t in self.C else builder_cls
 
     def class_mismatches(self):
         """(class, member, MemberSpec type, builder class) where the two differ"""
